@@ -393,8 +393,10 @@ def run(pid, tier, seed, args, t0):
             print('BACKEND-DISAGREEMENT %s %s' % (r['name'], r['disagreement']))
         return 3
     if violations:
-        for v in violations:
+        for v in violations[:12]:
             print(v)
+        if len(violations) > 12:
+            print('(%d further violations of property %s are listed in out/replay/%s/ and in the evidence)' % (len(violations) - 12, pid, pid))
         return 1
     if undecided:
         for u in undecided:
